@@ -122,3 +122,12 @@ Fixpoint nodup_vals (f : ftree) : bool :=
   | FNot c => nodup_vals c
   | _ => true
   end.
+(* every MatchKeys(keys...) leaf lists pairwise distinct keys (a key requested twice is
+   fetched twice: the caller's multiset, not the index's doing) *)
+Fixpoint nodup_keys (f : ftree) : bool :=
+  match f with
+  | FKeys ks => nodupN ks
+  | FAnd fs | FOr fs => forallb nodup_keys fs
+  | FNot c => nodup_keys c
+  | _ => true
+  end.
